@@ -1,0 +1,25 @@
+//go:build verif
+
+// Accessors for the verification harness (/verif). Add-only, no behaviour change.
+
+package beaconing
+
+import (
+	"context"
+
+	"github.com/scionproto/scion/control/beacon"
+	"github.com/scionproto/scion/control/ifstate"
+)
+
+// VerifBeaconsPerInterface exposes Propagator.beaconsPerInterface.
+func (p *Propagator) VerifBeaconsPerInterface(
+	ctx context.Context,
+	intfs []*ifstate.Interface,
+) (map[*ifstate.Interface][]beacon.Beacon, error) {
+	return p.beaconsPerInterface(ctx, intfs)
+}
+
+// VerifShouldIgnore exposes Propagator.shouldIgnore.
+func (p *Propagator) VerifShouldIgnore(b beacon.Beacon, intf *ifstate.Interface) bool {
+	return p.shouldIgnore(b, intf)
+}
